@@ -2334,6 +2334,8 @@ void indent_text()
 
                if (  next->IsNotNullChunk()
                   && !next->IsNewline()
+                     // a label behind other code stays where it is, and so does what follows it
+                  && pc->GetFirstChunkOnLine() == pc
                      // label (+ 2, because there is colon and space after it) must fit into indent
                   && (val + pc->Len() + 2 <= pse_indent))
                {
